@@ -151,3 +151,7 @@ Fixpoint data_value (v : value) : bool :=
   | VMacro _ _ | VFunc _ | VLoop _ _ => false
   | _ => true
   end.
+
+(* the VM fails with error kind k, or has reached the counter overflow *)
+Definition errs (c : cfg) (C : list instr) (σ : vm) (k : Z) : Prop :=
+  exists σ', starO c C σ σ' /\ (step c C σ' = Err k \/ overflow C σ').
